@@ -1,1 +1,288 @@
-/-! Property theorems for C11 — placeholder until the property's model is built. -/
+import FcpptProofs.C11.Signal
+set_option linter.unusedSimpArgs false
+set_option linter.unusedVariables false
+/-!
+# C11 — property theorems
+
+`Model/C11.lean` executes the pointer writes of every special member of `fcppt::intrusive::base` and
+`fcppt::intrusive::list`; `Spec/C11.lean` describes the same operations on rings of nodes.  The
+theorems below hold for **every** history of valid operations, of any length, over any number of
+lists and elements.  Lemmas live in `FcpptProofs/C11/`.
+-/
+namespace Fcppt.C11
+open Spec
+
+/-- the pointwise ring invariant of DESIGN.md: the links of every live node are live and mutually inverse -/
+def RingInv (σ : Store) : Prop := ∀ n, σ.live n = true →
+  σ.live (σ.next n) = true ∧ σ.live (σ.prev n) = true ∧ σ.prev (σ.next n) = n ∧ σ.next (σ.prev n) = n
+
+/-- every operation of a history is valid in the abstract state it is applied to -/
+def validRun (R : Rings) : List Op → Bool
+  | [] => true
+  | op :: ops => valid R op && validRun (Spec.step R op) ops
+
+/-- **The representation implies the pointwise ring invariant.** -/
+theorem ringInv_of_rep {σ : Store} {R : Rings} (rep : Rep σ R) : RingInv σ := by
+  intro n hn
+  have hm := (rep.live n).1 hn
+  obtain ⟨r, hr, hnr⟩ := mem_nodes.1 hm
+  have h1 := Ring_next (rep.ring r hr) hnr
+  have h2 := Ring_prev (rep.ring r hr) hnr
+  exact ⟨rep.live_of_mem (mem_nodes.2 ⟨r, hr, h1.1⟩), rep.live_of_mem (mem_nodes.2 ⟨r, hr, h2.1⟩), h1.2, h2.2⟩
+
+/-- **One step**: a valid operation on a represented store does not fault (no dead node is read or
+written) and yields a store that represents the abstract result. -/
+theorem list_step_inv {σ : Store} {R : Rings} (rep : Rep σ R) (op : Op) (hv : valid R op = true) :
+    ∃ σ', step σ op = .ok σ' ∧ Rep σ' (Spec.step R op) :=
+  step_rep rep op hv
+
+/-- **Every history**: running any list of valid operations never faults and ends in a store that
+represents `Spec.run`. -/
+theorem history_rep {σ : Store} {R : Rings} (rep : Rep σ R) (ops : List Op) (hv : validRun R ops = true) :
+    ∃ σ', run σ ops = .ok σ' ∧ Rep σ' (Spec.run R ops) := by
+  induction ops generalizing σ R with
+  | nil => exact ⟨σ, rfl, rep⟩
+  | cons op ops ih =>
+    simp only [validRun, Bool.and_eq_true] at hv
+    obtain ⟨σ1, h1, rep1⟩ := step_rep rep op hv.1
+    obtain ⟨σ2, h2, rep2⟩ := ih rep1 hv.2
+    exact ⟨σ2, by simp [run, h1, bind, Except.bind, h2], rep2⟩
+
+/-- **RingInv is preserved by every operation, for every history from the empty program state.** -/
+theorem ring_inv_history (ops : List Op) (hv : validRun [] ops = true) :
+    ∃ σ', run Store.empty ops = .ok σ' ∧ RingInv σ' := by
+  obtain ⟨σ', h, rep⟩ := history_rep Rep_empty ops hv
+  exact ⟨σ', h, ringInv_of_rep rep⟩
+
+/-- **No operation of any valid history touches a destroyed node** (the model checks the pointee of
+every read and write; `Fault.oob` is its heap-use-after-free). -/
+theorem never_refers_to_dead (ops : List Op) (hv : validRun [] ops = true) (f : Fault) :
+    run Store.empty ops ≠ .error f := by
+  obtain ⟨σ', h, _⟩ := history_rep Rep_empty ops hv
+  rw [h]; intro e; cases e
+
+/-- **Iteration = abstract membership.** After any valid history, `begin() … end()` over list `k`
+terminates (any fuel ≥ the number of members suffices) and visits exactly the abstract member list,
+in order; iterating backwards visits it in reverse. -/
+theorem walk_eq_members (ops : List Op) (hv : validRun [] ops = true) {σ' : Store}
+    (hrun : run Store.empty ops = .ok σ') {k : Nat} {l : List Node}
+    (hm : members (Spec.run [] ops) k = some l) {fuel : Nat} (hf : l.length ≤ fuel) :
+    walk σ' (.head k) fuel = .ok l ∧ walkBack σ' (.head k) fuel = .ok l.reverse := by
+  obtain ⟨σ'', h, rep⟩ := history_rep Rep_empty ops hv
+  rw [hrun] at h; cases h
+  exact ⟨walk_members rep hm hf, walkBack_members rep hm hf⟩
+
+/-- the members of a list are elements (never a list head), pairwise distinct, and alive -/
+theorem members_are_live_elements (ops : List Op) (hv : validRun [] ops = true) {σ' : Store}
+    (hrun : run Store.empty ops = .ok σ') {k : Nat} {l : List Node}
+    (hm : members (Spec.run [] ops) k = some l) :
+    l.Nodup ∧ ∀ n ∈ l, (∃ e, n = Node.elem e) ∧ σ'.live n = true := by
+  obtain ⟨σ'', h, rep⟩ := history_rep Rep_empty ops hv
+  rw [hrun] at h; cases h
+  have hr := members_mem hm
+  refine ⟨(List.nodup_cons.1 (rep.wf.nodup _ hr)).2, fun n hn => ⟨rep.wf.tail _ hr n hn, ?_⟩⟩
+  exact rep.live_of_mem (mem_nodes.2 ⟨_, hr, by simp [hn]⟩)
+
+/-- a list is alive exactly when the abstract state has a member list for it -/
+theorem list_live_iff {σ : Store} {R : Rings} (rep : Rep σ R) (k : Nat) :
+    σ.live (.head k) = true ↔ ∃ l, members R k = some l := by
+  constructor
+  · intro h
+    obtain ⟨r, hr, hm⟩ := mem_nodes.1 ((rep.live _).1 h)
+    obtain ⟨l, rfl⟩ := head_front rep.wf hr hm
+    exact ⟨l, members_of_mem rep.wf hr⟩
+  · rintro ⟨l, hl⟩
+    exact rep.live_of_mem (mem_nodes.2 ⟨_, members_mem hl, by simp⟩)
+
+/-! ### non-vacuity and the abstract operations on a concrete history -/
+
+/-- a history with every kind of operation: valid, and the abstract result is what the prose says -/
+def demo : List Op :=
+  [.newList 0, .newElem 0 0, .newElem 1 0, .newElem 2 0, .newList 1, .newElem 3 1,
+   .moveCtor 4 1,            -- 4 takes the place of 1
+   .moveAssign 3 0,          -- 3 leaves list 1 and takes the place of 0
+   .listMoveAssign 1 0,      -- list 1 (empty by now) takes over list 0
+   .listMoveCtor 2 1, .unlink 4, .delElem 3, .listMoveAssign 2 0 /- from an empty list -/, .delList 2]
+
+example : validRun [] demo = true := by decide
+example : members (Spec.run [] (demo.take 9)) 1 = some [.elem 3, .elem 4, .elem 2] := by decide
+example : members (Spec.run [] (demo.take 12)) 2 = some [.elem 2] := by decide
+example : members (Spec.run [] demo) 2 = none := by decide
+example : members (Spec.run [] demo) 0 = some [] := by decide
+/-- element 2 survives in an orphan ring: alive, in no list -/
+example : Spec.run [] demo = [[.elem 4], [.head 1], [.head 0], [.elem 0], [.elem 1], [.elem 2]] := by decide
+
+/-! ### the repaired defect (fcppt commit dcbe9a0) and the guard of `valid` -/
+
+/-- `list::operator=(list&&)` as it was before dcbe9a0: nothing happened when the source was empty -/
+def listAssignMoveOld (σ : Store) (k other : Nat) : M Store :=
+  if other = k then .ok σ else do
+    let e ← listEmpty σ (.head other)
+    if e then .ok σ else baseAssignMove σ (.head k) (.head other)
+
+/-- Old behaviour refuted: list 0 = [e0]; `list0 = std::move(empty list1)` left `e0` linked to the head of
+list 0 (so list 0 was not empty afterwards, contradicting the abstract result). -/
+example :
+    (do let σ ← run Store.empty [.newList 0, .newElem 0 0, .newList 1]
+        let σ ← listAssignMoveOld σ 0 1
+        walk σ (.head 0) 8) = .ok [.elem 0] ∧
+    members (Spec.run [] [.newList 0, .newElem 0 0, .newList 1, .listMoveAssign 0 1]) 0 = some [] := by
+  decide
+
+/-- … and with the repaired code the same history gives the empty list. -/
+example :
+    (do let σ ← run Store.empty [.newList 0, .newElem 0 0, .newList 1, .listMoveAssign 0 1]
+        walk σ (.head 0) 8) = .ok [] := by
+  decide
+
+/-- does the computation end in the given fault? (`Store` holds functions, so `=` on results is not decidable) -/
+def faults {α : Type} (r : M α) (f : Fault) : Bool :=
+  match r with
+  | .error g => g == f
+  | .ok _ => false
+
+/-- **Why `valid` restricts element moves to a linked source** (suspected genuine defect, see
+notes/C11.md): `base(base&&)` from an unlinked element leaves the new element pointing at the source
+without being pointed at; destroying the source and then the new element writes through a dangling
+pointer. -/
+theorem moveCtor_from_unlinked_breaks_ring :
+    (do let σ ← run Store.empty [.newList 0, .newElem 0 0, .unlink 0, .moveCtor 1 0]
+        pure (σ.next (.elem 1), σ.prev (.elem 1), σ.next (.elem 0), σ.prev (.elem 0)))
+      = .ok (Node.elem 0, Node.elem 0, Node.elem 0, Node.elem 0) ∧
+    faults (run Store.empty [.newList 0, .newElem 0 0, .unlink 0, .moveCtor 1 0, .delElem 0, .delElem 1]) .oob = true := by
+  decide
+
+set_option maxRecDepth 8000 in
+/-- the same through move assignment, corrupting a list that is otherwise untouched: afterwards the
+iteration of list 0 never reaches `end()` -/
+theorem moveAssign_from_unlinked_corrupts_list :
+    (do let σ ← run Store.empty [.newList 0, .newElem 0 0, .newElem 1 0, .newElem 2 0, .unlink 2,
+                                 .moveCtor 3 2, .moveAssign 2 0, .delElem 3]
+        walk σ (.head 0) 12) = .error .fuel := by
+  decide
+
+
+/-! ## Signals -/
+
+/-- every signal operation of a history is valid as an operation on the connection lists -/
+def sigValidRun (R : Rings) : List Sig.Op → Bool
+  | [] => true
+  | op :: ops => valid R op.toList && sigValidRun (Spec.step R op.toList) ops
+
+def sigRun (st : Sig.State) : List Sig.Op → M Sig.State
+  | [] => .ok st
+  | op :: ops => do
+    let st ← Sig.step st op
+    sigRun st ops
+
+/-- **Every signal history** (connect, connection death, signal move / move-assignment / destruction in
+any order) runs without touching a dead connection and keeps the connection lists represented. -/
+theorem sig_history_rep {st : Sig.State} {R : Rings} (h : SRep st R) (ops : List Sig.Op)
+    (hv : sigValidRun R ops = true) :
+    ∃ st', sigRun st ops = .ok st' ∧ SRep st' (Spec.run R (ops.map Sig.Op.toList)) := by
+  induction ops generalizing st R with
+  | nil => exact ⟨st, rfl, h⟩
+  | cons op ops ih =>
+    simp only [sigValidRun, Bool.and_eq_true] at hv
+    obtain ⟨s1, h1, r1⟩ := sig_step_rep h op hv.1
+    obtain ⟨s2, h2, r2⟩ := ih r1 hv.2
+    exact ⟨s2, by simp [sigRun, h1, bind, Except.bind, h2], by simpa [Spec.run] using r2⟩
+
+private theorem nodup_of_map_elem : ∀ {xs : List Nat}, (xs.map Node.elem).Nodup → xs.Nodup
+  | [], _ => List.nodup_nil
+  | x :: xs, h => by
+    simp only [List.map_cons, List.nodup_cons, List.mem_map, not_exists, not_and] at h ⊢
+    exact ⟨fun hx => h.1 x hx rfl, nodup_of_map_elem h.2⟩
+
+private theorem mapM_conns {st : Sig.State} {R : Rings} (h : SRep st R) :
+    ∀ l : List Node, (∀ n ∈ l, (∃ e, n = Node.elem e) ∧ n ∈ nodes R) →
+    ∃ (xs : List Nat) (cs : List Sig.Conn), l = xs.map Node.elem ∧ xs.map st.conn = cs.map some ∧
+      l.mapM (fun n => match n with
+        | .elem x => (match st.conn x with
+          | some c => .ok c.callback
+          | none => .error .oob)
+        | .head _ => .error .oob) = (.ok (cs.map (·.callback)) : M (List Nat)) := by
+  intro l
+  induction l with
+  | nil => intro _; exact ⟨[], [], rfl, rfl, rfl⟩
+  | cons n t ih =>
+    intro hl
+    obtain ⟨⟨e, rfl⟩, hn⟩ := hl n (by simp)
+    obtain ⟨c, hc⟩ := h.conn e hn
+    obtain ⟨xs, cs, h1, h2, h3⟩ := ih (fun m hm => hl m (by simp [hm]))
+    refine ⟨e :: xs, c :: cs, by simp [h1], by simp [hc, h2], ?_⟩
+    simp [List.mapM_cons, hc, h3, bind, Except.bind, pure, Except.pure]
+
+/-- **Calling a signal invokes exactly the callbacks of the live connections in its list, once each,
+in connection order**: the connection ids `xs` are the abstract members (pairwise distinct, all with a
+live payload `cs`), and the invoked callbacks are theirs, in that order. -/
+theorem call_invokes_live_once_in_order {st : Sig.State} {R : Rings} (h : SRep st R) {s : Nat} {l : List Node}
+    (hm : members R s = some l) {fuel : Nat} (hf : l.length ≤ fuel) :
+    ∃ (xs : List Nat) (cs : List Sig.Conn), l = xs.map Node.elem ∧ xs.Nodup ∧ xs.map st.conn = cs.map some ∧
+      Sig.invoked st s fuel = .ok (cs.map (·.callback)) := by
+  have hr := members_mem hm
+  have hnd := (List.nodup_cons.1 (h.rep.wf.nodup _ hr)).2
+  obtain ⟨xs, cs, h1, h2, h3⟩ := mapM_conns h l (fun n hn =>
+    ⟨h.rep.wf.tail _ hr n hn, mem_nodes.2 ⟨_, hr, by simp [hn]⟩⟩)
+  refine ⟨xs, cs, h1, ?_, h2, ?_⟩
+  · rw [h1] at hnd; exact nodup_of_map_elem hnd
+  · simp only [Sig.invoked, walk_members h.rep hm hf, bind, Except.bind]
+    exact h3
+
+/-- **The result of a call is the left fold of the combiner over the callback results, starting from
+the initial value** (`fs` = the callbacks invoked; with no connection the initial value is returned and
+the combiner is not needed). -/
+theorem call_is_left_fold (cb : Nat → Nat → Nat) (comb : Nat → Nat → Nat → Nat) {st : Sig.State} {s fuel : Nat}
+    {fs : List Nat} (hi : Sig.invoked st s fuel = .ok fs) (init arg : Nat) :
+    (fs = [] → Sig.call cb comb st s fuel init arg = .ok ([], init)) ∧
+    (∀ c, st.combiner s = some c →
+      Sig.call cb comb st s fuel init arg = .ok (fs, fs.foldl (fun acc f => comb c acc (cb f arg)) init)) := by
+  constructor
+  · intro e; subst e
+    simp [Sig.call, hi, bind, Except.bind]
+  · intro c hc
+    cases fs with
+    | nil => simp [Sig.call, hi, bind, Except.bind]
+    | cons f t => simp [Sig.call, hi, hc, bind, Except.bind]
+
+/-- **The unregister function of a connection runs exactly once when the connection dies**: its
+counter goes up by one, no other counter changes, and the connection is gone afterwards (so it cannot
+die again). -/
+theorem unregister_exactly_once {st st' : Sig.State} {x u : Nat} {c : Sig.Conn} (hc : st.conn x = some c)
+    (hu : c.unreg = some u) (hs : Sig.step st (.disconnect x) = .ok st') :
+    st'.unregCount u = st.unregCount u + 1 ∧ (∀ v, v ≠ u → st'.unregCount v = st.unregCount v) ∧
+    st'.conn x = none := by
+  simp only [Sig.step, hc, hu, bind, Except.bind] at hs
+  split at hs
+  · cases hs
+  · split at hs
+    · cases hs
+    · cases hs
+      exact ⟨by simp, fun v hv => by simp [hv], by simp⟩
+
+/-- … and no other operation (nor the death of a connection without unregister function) runs any. -/
+theorem unregister_only_on_death {st st' : Sig.State} {op : Sig.Op}
+    (hop : ∀ x c, op = .disconnect x → st.conn x = some c → c.unreg = none)
+    (hs : Sig.step st op = .ok st') : st'.unregCount = st.unregCount := by
+  cases op with
+  | disconnect x =>
+    simp only [Sig.step] at hs
+    cases hc : st.conn x with
+    | none => simp [hc] at hs
+    | some c =>
+      have := hop x c rfl hc
+      simp only [hc, this, bind, Except.bind] at hs
+      split at hs
+      · cases hs
+      · cases hs; rfl
+  | newSig s c => simp only [Sig.step, bind, Except.bind] at hs; split at hs <;> cases hs; rfl
+  | connect x s f u => simp only [Sig.step, bind, Except.bind] at hs; split at hs <;> cases hs; rfl
+  | moveCtor s' s => simp only [Sig.step, bind, Except.bind] at hs; split at hs <;> cases hs; rfl
+  | moveAssign s s2 => simp only [Sig.step, bind, Except.bind] at hs; split at hs <;> cases hs; rfl
+  | delSig s => simp only [Sig.step, bind, Except.bind] at hs; split at hs <;> cases hs; rfl
+
+/-- non-vacuity: a signal history with connect, death, move, move-assignment -/
+example : sigValidRun [] [.newSig 0 1, .connect 0 0 5 (some 1), .connect 1 0 6 none, .moveCtor 1 0,
+    .connect 2 0 7 (some 2), .moveAssign 0 1, .disconnect 0, .delSig 0, .disconnect 1] = true := by decide
+
+end Fcppt.C11
